@@ -68,6 +68,7 @@ class Path:
         self.solver = z3.Solver()
         self.solver.set("timeout", 10000)
         self.depth = 0
+        self.decision_idx = set()
 
     # -- solver --------------------------------------------------------------------------------------
     def assume(self, c):
@@ -136,6 +137,7 @@ class Path:
         i = feas[d]
         c = options[i][1]
         if c is not True:
+            self.decision_idx.add(len(self.pc))
             self.assume(c)
         return i
 
@@ -217,6 +219,10 @@ class Engine:
             return True
         if isinstance(v, TermList):
             raise Limitation("truth value of an accumulator list")
+        if hasattr(v, "cond"):
+            return simplify_bool(v.cond)
+        if hasattr(v, "none") and hasattr(v, "s"):
+            return simplify_bool(z3.And(z3.Not(v.none), z3.Length(v.s) > 0))
         raise Limitation(f"truth value of {v!r}")
 
     # =================================================================================================
@@ -349,6 +355,8 @@ class Engine:
         if isinstance(base, enum.Enum):
             if attr in ("name", "value"):
                 return getattr(base, attr)
+        if hasattr(base, "m_" + attr):
+            return BoundMethod(base, attr, None)
         raise Limitation(f"attribute {attr} of {base!r}")
 
     obj_attr_handlers = {}
@@ -357,6 +365,23 @@ class Engine:
     def ev_BoolOp(self, node, fr, path):
         is_and = isinstance(node.op, ast.And)
         v = None
+        if fr.module is not None and fr.module is getattr(self, "spec_module", None):
+            # specification context: and/or are logical connectives (no forking); python's short-circuit is kept for
+            # operands that are decided (kind guards such as INT(n) and n < 0)
+            acc = None
+            for i, e in enumerate(node.values):
+                v = self.ev(e, fr, path)
+                t = self.truth(v, path)
+                if isinstance(t, bool):
+                    if is_and and not t:
+                        return False if acc is None or True else acc
+                    if not is_and and t:
+                        return True
+                    continue
+                acc = t if acc is None else (z3.And(acc, t) if is_and else z3.Or(acc, t))
+            if acc is None:
+                return is_and
+            return simplify_bool(acc)
         for i, e in enumerate(node.values):
             v = self.ev(e, fr, path)
             if i == len(node.values) - 1:
@@ -501,7 +526,14 @@ class Engine:
         return simplify_bool(z3.Not(r))
 
     def identical(self, a, b):
+        if a is b:
+            return True
         if a is None or b is None:
+            o = b if a is None else a
+            if hasattr(o, "cond"):
+                return simplify_bool(z3.Not(o.cond))
+            if hasattr(o, "none") and hasattr(o, "s"):
+                return simplify_bool(o.none)
             return a is None and b is None
         if isinstance(a, Obj) and isinstance(b, Obj):
             return a.oid == b.oid
@@ -513,6 +545,16 @@ class Engine:
 
     def equal(self, a, b, path):
         import enum
+        if a is b:
+            return True
+        for x, y in ((a, b), (b, a)):
+            if hasattr(x, "none") and hasattr(x, "s"):
+                if y is None:
+                    return simplify_bool(x.none)
+                if is_strv(y):
+                    return simplify_bool(z3.And(z3.Not(x.none), x.s == str_term(y)))
+                if hasattr(y, "none") and hasattr(y, "s"):
+                    return simplify_bool(z3.And(x.none == y.none, z3.Or(x.none, x.s == y.s)))
         if a is None or b is None:
             if a is None and b is None:
                 return True
@@ -744,6 +786,8 @@ class Engine:
             raise Limitation("nested comprehension")
         g = node.generators[0]
         it = self.ev(g.iter, fr, path)
+        if isinstance(it, SymSeq):
+            return self.filtered(node, g, it, "dict")
         items = self.iter_concrete(it, path)
         out = {}
         for x in items:
@@ -761,7 +805,7 @@ class Engine:
         it = self.ev(g.iter, fr, path)
         if isinstance(it, (SymSeq, MapList)):
             if g.ifs:
-                raise Limitation("filtered comprehension over a symbolic sequence")
+                return self.filtered(node, g, it, "seq")
             env0 = dict(fr.env)
 
             def getter(i, it=it, env0=env0):
@@ -779,6 +823,31 @@ class Engine:
             if all(path.branch(self.ev(c, f2, path), "comp-if") for c in g.ifs):
                 out.append(self.ev(node.elt, f2, path))
         return out
+
+    def filtered(self, node, g, it, kind):
+        """a filtered comprehension over an oracle sequence is an uninterpreted function of that sequence, named by
+        the (alpha-normalised) element and filter expressions: equal source gives equal terms"""
+        base = getattr(it, "vterm", None)
+        if base is None:
+            raise Limitation("filtered comprehension over a symbolic sequence")
+        import hashlib
+        names = [n.id for n in ast.walk(g.target) if isinstance(n, ast.Name)]
+
+        def dump(e):
+            import copy
+            e = copy.deepcopy(e)
+            for n in ast.walk(e):
+                if isinstance(n, ast.Name):
+                    if n.id in names:
+                        n.id = "_x%d" % names.index(n.id)
+                    else:
+                        raise Limitation("filtered comprehension with free variables")
+            return ast.dump(e)
+        elts = [node.key, node.value] if kind == "dict" else [node.elt]
+        key = kind + "|" + "|".join(dump(e) for e in elts) + "||" + "|".join(dump(c) for c in g.ifs)
+        h = hashlib.sha256(key.encode()).hexdigest()[:12]
+        fs = FiltSeq(z3.Function("filt_" + h, V, V)(base), key)
+        return fs
 
     def comp_nested(self, node, fr, path, gi, f):
         g = node.generators[gi]
@@ -847,8 +916,8 @@ class Engine:
         if isinstance(f, BoundMethod):
             if f.func is None:
                 return self.call_value_method(f.recv, f.name, args, kwargs, fr, path)
-            if f.recv is None:
-                # unbound method accessed through the class: first arg is self
+            if f.recv is None or f.func.static:
+                # unbound method accessed through the class (first arg is self), or a staticmethod reached via an instance
                 return self.call_function(f.func, args, kwargs, fr, path)
             return self.call_function(f.func, [f.recv] + list(args), kwargs, fr, path)
         if isinstance(f, FuncInfo):
@@ -1119,7 +1188,7 @@ class Engine:
         v = args[0]
         if isinstance(v, (tuple, list)):
             return tuple(v)
-        if isinstance(v, (SymSeq, TermList)):
+        if isinstance(v, (SymSeq, TermList, FiltSeq)):
             return v
         raise Limitation(f"tuple({v!r})")
 
@@ -1218,6 +1287,16 @@ class Engine:
             return [tuple(t) for t in zip(*args)]
         raise Limitation("zip of symbolic sequences")
 
+    def bi_open(self, args, kwargs, fr, path):
+        from .remodel import ext_open
+        return ext_open(self, path, args, kwargs)
+
+    def bi_getattr(self, args, kwargs, fr, path):
+        obj, name = args[0], args[1]
+        if not isinstance(name, str):
+            raise Limitation("getattr with a symbolic name")
+        return self.getattr(obj, name, fr, path)
+
     def bi_print(self, args, kwargs, fr, path):
         return None
 
@@ -1296,10 +1375,9 @@ class Engine:
             if name == "update":
                 recv.update(args[0])
                 return None
-        if isinstance(recv, (SetV, SymSet)) or isinstance(recv, (TermList, TermDict, MapList, SymSeq, CharV)):
-            h = getattr(recv, "m_" + name, None)
-            if h is not None:
-                return h(self, path, fr, *args, **kwargs)
+        h = getattr(recv, "m_" + name, None)
+        if h is not None:
+            return h(self, path, fr, *args, **kwargs)
         raise Limitation(f"method {name} of {kind_of(recv)}")
 
     def str_method(self, recv, name, args, kwargs, fr, path):
@@ -1558,7 +1636,8 @@ class FileV:
         self.path_value = path_value
 
     def m_read(self, eng, path, fr):
-        return eng.spec_builtins["READ"](eng, path, self.path_value)
+        from .remodel import read_file
+        return read_file(eng, path, self.path_value, getattr(self, "mode", "r"), getattr(self, "encoding", None))
 
 
 class NestedFunc:
@@ -1615,6 +1694,16 @@ class SymSet:
         self.seq = seq
 
 
+class FiltSeq:
+    """filtered view of an oracle sequence; only its identity (an EUF term) is known"""
+
+    def __init__(self, vterm, key):
+        self.vterm, self.key = vterm, key
+
+    def box(self):
+        return self.vterm
+
+
 class TermDict:
     def __init__(self, term=None):
         self.term = NIL if term is None else term
@@ -1625,6 +1714,9 @@ class TermDict:
         (k, v), = d.items()
         self.term = APP(self.term, box((k, v)))
         return None
+
+    def box(self):
+        return z3.Function("v_dict", L, V)(self.term)
 
     def __repr__(self):
         return f"<TermDict {self.term}>"
@@ -1640,7 +1732,7 @@ TermList.m_append = _tl_append
 
 PY_BUILTINS = {"isinstance", "issubclass", "len", "str", "int", "bool", "float", "list", "tuple", "dict", "set", "max",
                "min", "ord", "chr", "range", "enumerate", "zip", "print", "repr", "type", "any", "all", "map",
-               "sorted", "open", "super"}
+               "sorted", "open", "super", "getattr"}
 
 
 def kind_of(v):
